@@ -72,6 +72,13 @@ class DecoderRun2:
                 out.append(r)
             return Limb(out)
         pa, pb = isinstance(a, PByte), isinstance(b, PByte)
+        if pa and pb and op in ('Eq', 'Ne') and a.idx == b.idx:
+            # the same input byte seen twice: equal when neither copy had an unknown bit forced and the known bits agree
+            if a.mask == b.mask and (a.val & a.mask) == (b.val & b.mask) and not a.cleared and not b.cleared:
+                return Int(1 if op == 'Eq' else 0, 1)
+            if (a.mask & b.mask) and ((a.val ^ b.val) & a.mask & b.mask):
+                return Int(0 if op == 'Eq' else 1, 1)
+            return None
         if not (pa or pb):
             return None
         x, k = (a, b) if pa else (b, a)
